@@ -10,6 +10,7 @@ import (
 	"sort"
 	"strconv"
 	"strings"
+	"sync"
 	"time"
 
 	"github.com/NethermindEth/juno/blockchain/networks"
@@ -48,6 +49,10 @@ type startSpec struct {
 	CrashAt  int            `json:"crashAt"`          // tick right after which the process dies (0 = before Run, 999 = never)
 	Beh      map[int]migBeh `json:"beh"`              // default: complete
 	FailAt   int            `json:"failAt,omitempty"` // the runner write that would be this tick fails (0 = never)
+	// read faults (an I/O error, not "key not found"): NewRunner's read of the schema metadata; the
+	// runner's read of the stored resume token of these migrations
+	MetaReadFail bool  `json:"metaReadFail,omitempty"`
+	IstReadFail  []int `json:"istReadFail,omitempty"`
 }
 
 type diskSpec struct {
@@ -198,7 +203,7 @@ func (m *scriptMig) Migrate(ctx context.Context, database db.KeyValueStore, _ *n
 // ---- one start on the real code --------------------------------------------------------
 
 type startResult struct {
-	open         string // ok | optout | downgrade | error
+	open         string // ok | newer | optout:<i>f,<j>m,… | readerr | error:…
 	result       string // ok | err   (of Run)
 	crashed      bool
 	disk         string
@@ -268,17 +273,28 @@ func realStart(d *memory.Database, sp startSpec) startResult {
 		}
 		return false
 	}
+	if sp.MetaReadFail || len(sp.IstReadFail) > 0 {
+		metaKey := db.SchemaMetadata.Key()
+		metaLeft := sp.MetaReadFail // only NewRunner's read fails (the first one)
+		istKeys := map[string]bool{}
+		for _, i := range sp.IstReadFail {
+			istKeys[string(db.SchemaIntermediateState.Key([]byte{uint8(i)}))] = true
+		}
+		var fmu sync.Mutex
+		store.getFailKey = func(key []byte) bool {
+			fmu.Lock()
+			defer fmu.Unlock()
+			if metaLeft && string(key) == string(metaKey) {
+				metaLeft = false
+				return true
+			}
+			return istKeys[string(key)]
+		}
+	}
 	reg := buildRegistry(sp.Reg, func(i int) migration.Migration { return &scriptMig{idx: i, sr: sr} })
 	runner, err := migration.NewRunner(reg, store, &networks.Mainnet, log.NewNopZapLogger())
 	if err != nil {
-		switch {
-		case strings.Contains(err.Error(), "cannot opt out"):
-			out.open = "optout"
-		case strings.Contains(err.Error(), "newer, incompatible"):
-			out.open = "downgrade"
-		default:
-			out.open = "error:" + err.Error()
-		}
+		out.open = classifyOpenError(err)
 		out.disk, _, _, _ = readDisk(d)
 		return out
 	}
@@ -320,6 +336,37 @@ func realStart(d *memory.Database, sp startSpec) startResult {
 	return out
 }
 
+// classifyOpenError maps NewRunner's error to the model's verdict: `newer` (errNewerDatabase),
+// `optout:<i>f,<j>m,…` (the flags the opt-out error names, in the order it names them: `f` = by the flag
+// the harness registered (`opt-<i>`), `m` = `--migration-<j>`), `readerr` (the metadata could not be read).
+func classifyOpenError(err error) string {
+	msg := err.Error()
+	switch {
+	case errors.Is(err, errInjectedRead):
+		return "readerr"
+	case strings.Contains(msg, "cannot opt out"):
+		a, b := strings.Index(msg, "["), strings.Index(msg, "]")
+		if a < 0 || b < a {
+			return "error:" + msg
+		}
+		var toks []string
+		for _, f := range strings.Fields(msg[a+1 : b]) {
+			switch {
+			case strings.HasPrefix(f, "--opt-"):
+				toks = append(toks, strings.TrimPrefix(f, "--opt-")+"f")
+			case strings.HasPrefix(f, "--migration-"):
+				toks = append(toks, strings.TrimPrefix(f, "--migration-")+"m")
+			default:
+				toks = append(toks, "?"+f)
+			}
+		}
+		return "optout:" + strings.Join(toks, ",")
+	case strings.Contains(msg, "newer, incompatible"):
+		return "newer"
+	}
+	return "error:" + msg
+}
+
 func (sp startSpec) modelLine(obs map[int]*observed) string {
 	var toks []string
 	idx := make([]int, 0, len(obs))
@@ -345,6 +392,16 @@ func (sp startSpec) modelLine(obs map[int]*observed) string {
 	}
 	if sp.FailAt > 0 {
 		toks = append(toks, fmt.Sprintf("fail=%d", sp.FailAt))
+	}
+	if sp.MetaReadFail {
+		toks = append(toks, "rmeta")
+	}
+	if len(sp.IstReadFail) > 0 {
+		p := make([]string, len(sp.IstReadFail))
+		for k, i := range sp.IstReadFail {
+			p[k] = strconv.Itoa(i)
+		}
+		toks = append(toks, "rist="+strings.Join(p, ","))
 	}
 	return strings.TrimSpace(fmt.Sprintf("run %s %d %d %s", reg, sp.CancelAt, sp.CrashAt, strings.Join(toks, " ")))
 }
@@ -436,7 +493,7 @@ func (h *harness) runnerHistoryCase(hist runnerHistory, family string) bool {
 				wellBehaved = false
 			}
 		}
-		_, before, hadMeta, _ := readDisk(d)
+		diskBefore, before, hadMeta, istBefore := readDisk(d)
 		if !hadMeta {
 			before = migration.SchemaMetadata{}
 		}
@@ -449,6 +506,12 @@ func (h *harness) runnerHistoryCase(hist runnerHistory, family string) bool {
 			return false
 		}
 		res.Hit("runner-open:" + strings.SplitN(r.open, ":", 2)[0])
+		if sp.MetaReadFail {
+			res.Hit("runner-meta-read-failed")
+		}
+		if len(sp.IstReadFail) > 0 {
+			res.Hit("runner-token-read-fault-planned")
+		}
 		// --- model
 		var line string
 		if r.open == "ok" {
@@ -460,12 +523,12 @@ func (h *harness) runnerHistoryCase(hist runnerHistory, family string) bool {
 		res.Compared(1)
 		var want string
 		switch {
+		case r.open == "readerr":
+			want = "readerr " + r.disk
 		case r.open != "ok":
-			// which of the two validations refuses is not part of the property: compare "refused"
-			want = "refused " + r.disk
-			if f := strings.SplitN(ans, " ", 2); len(f) == 2 && strings.HasPrefix(f[0], "refused:") {
-				ans = "refused " + f[1]
-			}
+			// the error NewRunner returns is compared too: errNewerDatabase, or the opt-out error with
+			// exactly the flags it names (model: newRunnerV)
+			want = "refused:" + r.open + " " + r.disk
 		case r.crashed:
 			want = "crashed " + r.disk
 			// the model may also report the Run result of a process that died after its last write
@@ -484,6 +547,19 @@ func (h *harness) runnerHistoryCase(hist runnerHistory, family string) bool {
 		}
 		// --- property oracle on the real code
 		curB, lastB := uint64(before.CurrentVersion), uint64(before.LastTargetVersion)
+		if sp.MetaReadFail {
+			// the applied / opted-into migrations are unknown: nothing may be decided or written
+			if r.open == "ok" {
+				violate("newrunner-ignores-metadata-read-error", fmt.Sprintf(
+					"start %d: reading the schema metadata failed with an I/O error and NewRunner went on as if the database had none "+
+						"(before: %s, after: %s)", si, diskBefore, r.disk))
+			} else if r.disk != diskBefore {
+				violate("refused-start-changes-database", fmt.Sprintf("start %d: %s -> %s", si, diskBefore, r.disk))
+			}
+			if r.open != "ok" {
+				continue
+			}
+		}
 		mustRefuse := curB&^t != 0 || lastB&^t != 0
 		if r.open == "ok" && mustRefuse {
 			beyond := (lastB &^ t) >> uint(count)
@@ -501,9 +577,75 @@ func (h *harness) runnerHistoryCase(hist runnerHistory, family string) bool {
 		}
 		if r.open != "ok" {
 			res.Hit("runner-refused")
+			if r.disk != diskBefore {
+				violate("refused-start-changes-database", fmt.Sprintf("start %d: %s -> %s", si, diskBefore, r.disk))
+			}
+			// the opt-out error must name exactly the registered migrations that were opted out of
+			if mustRefuse && strings.HasPrefix(r.open, "optout:") {
+				var wantFlags []string
+				for i := 0; i < count; i++ {
+					if (lastB&^t)&(1<<uint(i)) != 0 {
+						k := "m"
+						if sp.Reg[i] != 'm' {
+							k = "f"
+						}
+						wantFlags = append(wantFlags, fmt.Sprintf("%d%s", i, k))
+					}
+				}
+				if got := strings.TrimPrefix(r.open, "optout:"); got != strings.Join(wantFlags, ",") {
+					violate("optout-error-names-wrong-flags", fmt.Sprintf(
+						"start %d: last=%b target=%b registry %s: the error names %q, the migrations opted out of are %q",
+						si, lastB, t, sp.Reg, got, strings.Join(wantFlags, ",")))
+				}
+			}
 			continue
 		}
 		_, after, _, ist := readDisk(d)
+		// token threading on the real code: Before receives exactly the stored token
+		for _, c := range strings.Split(r.calls, ",") {
+			if !strings.HasPrefix(c, "B") {
+				continue
+			}
+			f := strings.SplitN(c[1:], ":", 2)
+			i, _ := strconv.Atoi(f[0])
+			wantTok := "nil"
+			if st, ok := istBefore[i]; ok {
+				wantTok = showState(st)
+			}
+			if len(f) == 2 && f[1] != wantTok {
+				violate("before-receives-other-than-stored-token", fmt.Sprintf(
+					"start %d: Before of migration %d received %s, the stored resume token is %s", si, i, f[1], wantTok))
+			}
+		}
+		for _, i := range sp.IstReadFail {
+			bit := uint64(1) << uint(i)
+			if t&bit == 0 || curB&bit != 0 {
+				continue
+			}
+			if r.obs[i] != nil {
+				violate("runner-ignores-resume-token-read-error", fmt.Sprintf(
+					"start %d: reading the resume token of migration %d failed with an I/O error and the migration was started anyway", si, i))
+			}
+			stB, hadB := istBefore[i]
+			stA, hadA := ist[i]
+			if hadB != hadA || string(stB) != string(stA) || uint64(after.CurrentVersion)&bit != 0 {
+				violate("token-read-error-changes-migration-state", fmt.Sprintf(
+					"start %d: migration %d whose token could not be read: token %v/%x -> %v/%x, applied=%v", si, i, hadB, stB, hadA, stA,
+					uint64(after.CurrentVersion)&bit != 0))
+			}
+			if r.result == "ok" && !r.crashed && r.obs[i] == nil {
+				reached := true
+				for j := 0; j < i; j++ {
+					if t&(1<<uint(j)) != 0 && uint64(after.CurrentVersion)&(1<<uint(j)) == 0 {
+						reached = false
+					}
+				}
+				if reached {
+					violate("run-ok-after-token-read-error", fmt.Sprintf("start %d: Run returned nil although the token of pending migration %d could not be read", si, i))
+				}
+			}
+			res.Hit("runner-token-read-failed")
+		}
 		for i := 0; i < 64; i++ {
 			bit := uint64(1) << uint(i)
 			o := r.obs[i]
